@@ -163,6 +163,8 @@ let body lines =
     | "err" -> List.iter (fun l -> match words l with ["run"; _] -> print_string "err ok\n" | _ -> print_string "badop\n") ops
     (* constant initialisation of manual_box / value-initialising constructors in a pre-filled arena: oracle-only *)
     | "init" -> List.iter (fun l -> match words l with ["run"] -> print_string "init ok\n" | _ -> print_string "badop\n") ops
+    (* construct / destruct / construct_n / destruct_n of allocation.hpp: oracle-only *)
+    | "alloc" -> List.iter (fun l -> match words l with ["arr"; _; _] | ["one"; _] | ["null"] -> print_string "alloc ok\n" | _ -> print_string "badop\n") ops
     | "il" -> List.iter (fun l -> match words l with
         | ["fwd"; _; _] | ["one"; _] -> print_string "il ok\n" | _ -> print_string "badop\n") ops
     | _ -> print_string "badtype\n"
